@@ -325,6 +325,15 @@ func runCheck(id, tier string) int {
 	}()
 	replayDir := filepath.Join(root, "replays", id)
 	_ = os.MkdirAll(replayDir, 0o755)
+	if os.Getenv("VERIF_REPO") == "" || os.Getenv("VERIF_REPO") == "/repo" {
+		// stale run artefacts of this tier/seed (never the committed seeds)
+		for _, pre := range []string{"fail-", "died-", "race-"} {
+			old, _ := filepath.Glob(filepath.Join(replayDir, fmt.Sprintf("%s%s-seed%d-*", pre, tier, seed)))
+			for _, f := range old {
+				_ = os.Remove(f)
+			}
+		}
+	}
 
 	violations := []string{}
 	inconclusive := []string{}
@@ -441,6 +450,7 @@ func runCheck(id, tier string) int {
 	for _, oc := range outcomes {
 		failFiles, _ := filepath.Glob(filepath.Join(work, fmt.Sprintf("fail-%d-*.json", oc.idx)))
 		cur := filepath.Join(work, fmt.Sprintf("current-%d.json", oc.idx))
+		decodeCurrent(filepath.Join(work, fmt.Sprintf("current-%d.bin", oc.idx)), cur)
 		switch {
 		case oc.exit == 0 && !oc.timedOut:
 			completed++
@@ -732,6 +742,24 @@ func tail(s string, n int) string {
 		lines = lines[len(lines)-n:]
 	}
 	return strings.Join(lines, "\n") + "\n"
+}
+
+// decodeCurrent turns the length-prefixed precommit record into a replay JSON file.
+func decodeCurrent(bin, out string) {
+	b, err := os.ReadFile(bin)
+	if err != nil || len(b) < 8 {
+		return
+	}
+	n := binary.LittleEndian.Uint64(b)
+	if n > uint64(len(b)-8) {
+		return
+	}
+	var v any
+	if json.Unmarshal(b[8:8+n], &v) != nil {
+		return
+	}
+	pretty, _ := json.MarshalIndent(v, "", " ")
+	_ = os.WriteFile(out, pretty, 0o644)
 }
 
 func copyFile(src, dst string) {
